@@ -230,6 +230,65 @@ def shared_operand(tier: str = "thorough") -> list[dict]:
     return progs
 
 
+def same_object_twice(tier: str = "thorough") -> list[dict]:
+    """ONE array object in TWO operand slots of one einsum (v^T M v, s * s, <v, v>), the
+    shared operand being a sum / difference / scaled array, so that a policy may distribute
+    over either slot: the other slot must keep the undistributed operand."""
+    progs = []
+    rng = np.random.default_rng(2)
+    twice = [("i,ij,j->", [(3,), (3, 3), (3,)], (0, 2)), ("ij,ij->ij", [(2, 3), (2, 3)], (0, 1)),
+             ("i,i->", [(3,), (3,)], (0, 1)), ("ij,jk,kl->il", [(2, 2), (2, 2), (2, 2)], (0, 2)),
+             ("ij,jk,kl->il", [(2, 2), (2, 2), (2, 2)], (0, 1)),
+             ("i,i,i->i", [(3,), (3,), (3,)], (0, 1, 2))]
+    for (ti, (spec, shapes, slots)), f1 in itertools.product(
+            enumerate(twice), ["add", "sub", "c_mul", "div_c", "neg", "mul_c"]
+            if tier == "thorough" else ["sub", "c_mul", "add"]):
+        b = Builder(rng)
+        try:
+            s_ref = b.form(f1, shapes[slots[0]], b.leaf)
+            args = [s_ref if k in slots else b.leaf(sh) for k, sh in enumerate(shapes)]
+            b.call({"op": "einsum", "spec": spec, "args": args})
+        except ValueError:
+            continue
+        progs.append(b.g.finalize(f"twice/{ti}:{spec}/{f1}", 1))
+    return progs
+
+
+def complex_parts(tier: str = "thorough") -> list[dict]:
+    """COMPLEX operands with real / imag / conj / abs inside the operand a policy may
+    distribute over (real(x) + r, real(x) + 2 imag(y), imag(x - y), real(x + y), conj(x) - y):
+    none of these functions commutes with a contraction against a complex co-operand."""
+    progs = []
+    rng = np.random.default_rng(3)
+    tmpl = [("ij,j->i", [(2, 3), (3,)]), ("i,i->", [(3,), (3,)]), ("ij,ij->ij", [(2, 3), (2, 3)])]
+    inner = {
+        "real+r": lambda b, sh, L: b.call({"op": "add", "a": b.call({"op": "real", "a": L(sh)}),
+                                           "b": L(sh)}),
+        "real+2imag": lambda b, sh, L: b.call({
+            "op": "add", "a": b.call({"op": "real", "a": L(sh)}),
+            "b": b.call({"op": "mul", "a": S_INT, "b": b.call({"op": "imag", "a": L(sh)})})}),
+        "imag(x-y)": lambda b, sh, L: b.call({"op": "imag", "a": b.call(
+            {"op": "sub", "a": L(sh), "b": L(sh)})}),
+        "real(x+y)": lambda b, sh, L: b.call({"op": "real", "a": b.call(
+            {"op": "add", "a": L(sh), "b": L(sh)})}),
+        "conj(x)-y": lambda b, sh, L: b.call({"op": "sub", "a": b.call(
+            {"op": "conj", "a": L(sh)}), "b": L(sh)}),
+        "real(3x)": lambda b, sh, L: b.call({"op": "real", "a": b.call(
+            {"op": "mul", "a": S_INT, "b": L(sh)})}),
+    }
+    for (ti, (spec, shapes)), pos, (iname, mk) in itertools.product(
+            enumerate(tmpl), range(2), inner.items()):
+        b = Builder(rng)
+        L = lambda sh, b=b: b.g.add_input(tuple(sh), "c16")      # noqa: E731
+        try:
+            args = [mk(b, sh, L) if k == pos else L(sh) for k, sh in enumerate(shapes)]
+            b.call({"op": "einsum", "spec": spec, "args": args})
+        except ValueError:
+            continue
+        progs.append({**b.g.finalize(f"cplx/{ti}:{spec}/{pos}/{iname}", 1), "nocast": True})
+    return progs
+
+
 def random_nested(rng: np.random.Generator, n: int) -> list[dict]:
     progs = []
     tries = 0
@@ -371,7 +430,11 @@ def build(prog: dict) -> dict:
             return
         if new is not expr:
             res["changed"] += 1
+        # (mixed real / complex programs: the only casts are WIDENING ones, which exact
+        # algebra reads as the identity -- PtSem would otherwise treat them as
+        # uninterpreted functions, and a rewrite legitimately moves them)
         res["records"].append({"id": f"{pid}|{name}", "rel": "eq", "a": ga, "b": gb,
+                               **({"nocast": True} if prog.get("nocast") else {}),
                                "vals": vals, "dtype": True})
 
     for pol in policies:
@@ -410,7 +473,7 @@ def main(tier: str, only: list[dict] | None = None) -> int:
     if only is not None:
         progs = only
     else:
-        progs = systematic(tier) + shared_operand(tier) + random_nested(
+        progs = systematic(tier) + shared_operand(tier) + same_object_twice(tier) + complex_parts(tier) + random_nested(
             rng, 60 if tier == "quick" else 2500)
         design_check(run, tier)
     n = NCPU * 4
